@@ -1,5 +1,6 @@
 import NbdimeProofs.Lemmas.LcsMatching
 import NbdimeProofs.Lemmas.WfDiff
+import NbdimeProofs.Lemmas.NbWf
 import NbdimeProofs.Properties.C02
 /-
   C11 — every produced diff is well-formed for its base document. `wf` (NbdimeModel/WF.lean) is the
@@ -121,5 +122,16 @@ theorem C11_generic_wf (O : Oracle) (hO : OracleOK O) (a b : J) (d : List Op)
 example : ∀ d, diffGeneric exOracle exA exB = .ok d → wf exA d = true := fun d h =>
   C11_generic_wf exOracle exOracle_ok exA exB d (by decide +kernel) (by decide +kernel)
     (compat_ints exA exB (by decide +kernel) (by decide +kernel)) h
+
+
+/-- **C11 for the model of the notebook differ**: under every differ configuration that passes the decidable
+    `cfgSoundB` (the live tables of `diff_notebooks` are extracted per run and the theorem is instantiated with
+    them), every oracle with `OracleOK` and every pair of compatible canonical notebooks, the diff is well-formed for
+    the base notebook — cells and outputs (multilevel alignment, any predicate answers), sources (line and
+    character level), mime bundles, attachments, metadata, at every depth. -/
+theorem C11_notebook_wf (O : Oracle) (hO : OracleOK O) (cfg : Cfg) (hcfg : cfgSoundB cfg = true)
+    (a b : J) (d : List Op) (ca : a.canonical = true) (cb : b.canonical = true) (hab : Compat a b)
+    (h : diffNotebooks O cfg a b = .ok d) : wf a d = true :=
+  diffNotebooks_wf O hO cfg hcfg a b d ca cb hab h
 
 end Nbdime
